@@ -23,6 +23,7 @@ import (
 	"strconv"
 	"strings"
 	"sync"
+	"sync/atomic"
 
 	stackage "github.com/JesseCoretta/go-stackage"
 )
@@ -490,10 +491,21 @@ const (
 	fNNest = 256
 )
 
+// ctorCalls alternates the three spellings of "no capacity": no argument, an explicit 0, a negative number
+var ctorCalls int64
+
 func newStack(kind, cap int) stackage.Stack {
 	var c []int
 	if cap != 0 {
 		c = []int{cap}
+	} else {
+		n := atomic.AddInt64(&ctorCalls, 1) // Build is also called from the 16 goroutines of the parallel-query run
+		switch n % 3 {
+		case 1:
+			c = []int{0}
+		case 2:
+			c = []int{-1 - int(n%5)}
+		}
 	}
 	switch kind {
 	case 1:
